@@ -142,7 +142,7 @@ prop("C16", [_lazy("cli_flow", "rule_optflow1"), _lazy("cli_flow", "rule_optflow
      "the relative order of -m and the deprecated -l samples (argparse separates them)")
 
 prop("C18", [_lazy("converters", "rule_tok1"), _lazy("converters", "rule_tok2"), _lazy("converters", "rule_tok3"),
-             _lazy("converters", "rule_null1"), _lazy("state", "rule_glob1")],
+             _lazy("converters", "rule_null1"), _lazy("state", "rule_glob1_converters")],
      "Static decision of: the path tokens and both separators emitted by the generator are the ones the post-init "
      "interpreter dispatches / splits on, and its type-argument index per container token matches the emitted "
      "annotation form (TOK-1); every IR class that rapid type analysis shows the inference pipeline can put in a "
@@ -152,7 +152,7 @@ prop("C18", [_lazy("converters", "rule_tok1"), _lazy("converters", "rule_tok2"),
      "shared between classes (GLOB-1).",
      "that converted values equal parsing the original strings; behaviour of the per-field attrs converter form")
 
-prop("C10", [_lazy("emit", "rule_lim"), _lazy("emit", "rule_inj3"), _lazy("emit", "rule_lit"), _lazy("state", "rule_glob1")],
+prop("C10", [_lazy("emit", "rule_lim"), _lazy("emit", "rule_inj3"), _lazy("emit", "rule_lit"), _lazy("state", "rule_glob1_generators")],
      "Static decision of: every comparison of a literal count with MAX_LITERALS, of a member length with "
      "MAX_STRING_LENGTH and of the member count with the configured maximum flips exactly at the documented "
      "boundary (evaluated at limit-1, limit, limit+1 after normalisation) and compares the size of ONE collection; "
@@ -177,7 +177,7 @@ prop("C11", [_lazy("emit", "rule_inj2"), _lazy("emit", "rule_sib2"), _lazy("emit
 
 prop("C03", [_lazy("imports", "rule_imp1"), _lazy("imports", "rule_imp2"), _lazy("imports", "rule_shadow1"),
              _lazy("emit", "rule_label1"), _lazy("emit", "rule_dup1"), _lazy("emit", "rule_fwd1"),
-             _lazy("emit", "rule_inj2"), _lazy("emit", "rule_inj3"), _lazy("emit", "rule_sib1")],
+             _lazy("emit", "rule_inj2"), _lazy("emit", "rule_inj3"), _lazy("emit", "rule_sib1_layout")],
      "Static decision of: every import tuple a generator can emit (symbolic components expanded over the class "
      "tables) names an existing module and a name bound at its top level, read from the installed sources "
      "(IMP-1); every identifier in an emitted code fragment (templates, default/factory/converter strings, bases) "
@@ -189,7 +189,7 @@ prop("C03", [_lazy("imports", "rule_imp1"), _lazy("imports", "rule_imp2"), _lazy
      "names within a scope; behaviour of inflection/unidecode; names that shadow pydantic BaseModel attributes")
 
 prop("C04", [_lazy("emit", "rule_sib1"), _lazy("emit", "rule_sib2"), _lazy("emit", "rule_inj2"), _lazy("emit", "rule_tbl1"),
-             _lazy("state", "rule_cache2"), _lazy("state", "rule_glob1")],
+             _lazy("state", "rule_cache2"), _lazy("state", "rule_glob1_generators")],
      "Static decision of: on every feasible path of each framework's field_data (path enumeration with a small "
      "abstract state for the kwargs dict) an optional list/dict/scalar field carries default list/dict/None to "
      "the emitted body and a required field carries none; the optional flag is the sort_fields group, decided by "
